@@ -61,16 +61,23 @@ func c19snap(root string) map[string]c19ent {
 	return m
 }
 
+// c19TZ is the time zone the command runs in; the recorded date must be the
+// UTC date whatever the user's zone is.
+var c19TZ = ""
+
 func runGT(cfgHome string, args string) (string, string, error) {
 	cmd := exec.Command(os.Args[0], "-test.run=^TestVerifC19Child$")
 	env := []string{}
 	for _, e := range os.Environ() {
-		if strings.HasPrefix(e, "XDG_CONFIG_HOME=") || strings.HasPrefix(e, "HOME=") || strings.HasPrefix(e, "VERIF_GT_ARGS=") {
+		if strings.HasPrefix(e, "XDG_CONFIG_HOME=") || strings.HasPrefix(e, "HOME=") || strings.HasPrefix(e, "VERIF_GT_ARGS=") || strings.HasPrefix(e, "TZ=") {
 			continue
 		}
 		env = append(env, e)
 	}
 	cmd.Env = append(env, "XDG_CONFIG_HOME="+cfgHome, "HOME="+cfgHome, "VERIF_GT_ARGS="+args)
+	if c19TZ != "" {
+		cmd.Env = append(cmd.Env, "TZ="+c19TZ)
+	}
 	var out, errb bytes.Buffer
 	cmd.Stdout = &out
 	cmd.Stderr = &errb
@@ -158,6 +165,17 @@ func TestVerifC19(t *testing.T) {
 			os.WriteFile(filepath.Join(tdir, "mode"), []byte("off 2020-02-29"), 0o644)
 		default:
 			os.WriteFile(filepath.Join(tdir, "mode"), []byte(verifrt.Pick(rnd, []string{"on", "off", "local"})+verifrt.Pick(rnd, []string{"", " 2023-04-05", " 2019-12-31"})), 0o644)
+		}
+		// UTC+14 and UTC-11: at any instant at least one of them has a calendar
+		// date different from UTC's
+		c19TZ = verifrt.Pick(rnd, []string{"", "Pacific/Kiritimati", "Pacific/Pago_Pago", "Asia/Kolkata"})
+		if _, err := os.Stat("/usr/share/zoneinfo/" + c19TZ); c19TZ != "" && err != nil {
+			c19TZ = ""
+		}
+		if c19TZ != "" {
+			if loc, err := time.LoadLocation(c19TZ); err == nil && time.Now().In(loc).Format("2006-01-02") != time.Now().UTC().Format("2006-01-02") {
+				res.Hit("zone-with-other-date")
+			}
 		}
 		ncmd := 1 + rnd.Intn(6)
 		for k := 0; k < ncmd; k++ {
@@ -273,6 +291,9 @@ func TestVerifC19(t *testing.T) {
 		os.RemoveAll(home)
 	}
 	res.Require("clean-checked", "mode-already-set", "mode-changed", "mode-shrinks", "cmd:env")
+	if _, err := os.Stat("/usr/share/zoneinfo/Pacific/Kiritimati"); err == nil {
+		res.Require("zone-with-other-date")
+	}
 	if err := res.Write(); err != nil {
 		t.Fatal(err)
 	}
